@@ -19,8 +19,19 @@ SYM_LEAVES = {"prim_string", "prim_float", "prim_double", "pair_array_string", "
               "pair_union_string", "pair_field_double", "pair_array_double"}
 
 
-@functools.lru_cache(maxsize=None)
+_CASES = {}
+
+
 def case(name, thorough=False):
+    """(cached by hand: CrossHair bypasses functools caches while tracing, so harness modules
+    bind their case at import time)"""
+    if (name, thorough) in _CASES:
+        return _CASES[(name, thorough)]
+    _CASES[(name, thorough)] = c = _case(name, thorough)
+    return c
+
+
+def _case(name, thorough):
     for n, tags, sch in family.family():
         if n == name:
             names = {}
@@ -151,9 +162,9 @@ def harnesses(tier, seed, which, want=None):
             fixed = bool((zlib.crc32(name.encode()) + seed) & 1)
             forms = [(".parsed" if fixed else ".raw", repr(fixed), params(c).replace(", parsed: bool", ""))]
         for suffix, pexpr, ps in forms:
-            call = f"{fn}(case({name!r}, {th}), v, {pexpr}, s)"
+            call = f"{fn}(C, v, {pexpr}, s)"
             hs.append(Harness(f"l2.{which}.{name}{suffix}", "props.l2", ps, call + "[0]", replay_call=call,
-                              what=f"{which} over schema {name}"))
+                              setup=f"C = case({name!r}, {th})", what=f"{which} over schema {name}"))
     return hs
 
 
